@@ -81,6 +81,10 @@ def run(ctx: Ctx) -> None:
         "mul": lambda: X.eval_callback("mul", lambda: [bind("a"), bind("b")])[0].value,
         "neg": lambda: X.eval_callback("neg", lambda: [bind("a")])[0].value,
         "not_expression": lambda: X.eval_callback("not_expression", lambda: [X.eval_callback("expression", lambda: [builders["comparison"]()])[0].value])[0].value,
+        "comparison with a \"..)..\" literal": lambda: X.eval_callback("comparison", lambda: [bind("a"), opt("EQUAL"), models.token("DOUBLE_QUOTED_STRING", '"a)"')])[0].value,
+        "comparison with a '..(..' literal": lambda: X.eval_callback("comparison", lambda: [bind("a"), opt("EQUAL"), models.token("SINGLE_QUOTED_STRING", "'(a'")])[0].value,
+        "comparison with a `..)..` literal": lambda: X.eval_callback("comparison", lambda: [bind("a"), opt("EQUAL"), models.token("ESCAPED_STRING", "`a)`")])[0].value,
+        "sum of two literals `(` + `)`": lambda: X.eval_callback("add", lambda: [models.token("ESCAPED_STRING", "`(`"), models.token("ESCAPED_STRING", "`)`")])[0].value,
         "func_call": lambda: X.eval_callback("func_call", lambda: [models.token("UNQUOTED_STRING", SStr.atom("f", free=True, excludes=frozenset("()\"'`"))), SStr.atom("p", free=True, excludes=frozenset("()\"'`"))])[0].value,
     }
     lx = repo.loc("transformer", repo.func("transformer.MapfileTransformer.expression"))
